@@ -153,7 +153,7 @@ def _brandes(prog, rep, f, kind, edges):
     acc = [s for s in dl.body if m.match(s, 'BC[%s] += DP[%s]' % (w, w))]
     rep.ob('D.node-score-accumulates-dependency', f, acc[0] if acc else 'BC[w] += DP[w]', len(acc) == 1, 'BC[w] must accumulate the dependency of the source on w', line=dl.lineno)
     feats['node-accumulate'] = 'BC[w] += DP[w]' if acc else None
-    inner = [s for s in dl.body if isinstance(s, ast.For)]
+    inner = [s for s in ast.walk(dl) if isinstance(s, ast.For) and s is not dl]      # (a guard around it is judged by D.every-predecessor)
     okf = False
     formula = None
     if len(inner) == 1:
@@ -188,7 +188,7 @@ def _brandes(prog, rep, f, kind, edges):
         rep.ob('D.every-predecessor-receives-its-share', f, jumps[0] if jumps else il, uncond and not jumps,
                'for every node w of the order (source excluded) and *every* predecessor v of w the share must be added: the dependency loop may not be '
                'left or cut short (%s at line %s) and the accumulations may not sit under a condition' % (
-                   type(jumps[0]).__name__.lower() if jumps else 'conditional accumulation', jumps[0].lineno if jumps else il.lineno), line=dl.lineno)
+                   type(jumps[0]).__name__.lower() if jumps else 'conditional accumulation (guard clause)', jumps[0].lineno if jumps else il.lineno), line=dl.lineno)
         feats['dependency-unconditional'] = bool(uncond and not jumps)
         extra = [s for s in incs if s not in dp_inc and s not in e_inc]
         rep.ob('D.no-other-accumulation', f, extra[0] if extra else 'accumulators in the dependency loop', not extra, 'unexpected extra accumulation', line=dl.lineno)
